@@ -84,6 +84,19 @@ func init() {
 			e.P("/-- %s: %s.%s — its `if` conditions, in source order -/", file, recv, fn)
 			e.P("def %s : List String := %s", lean, LeanStrList(Conds(fd)))
 		}
+		// the payload classifiers, which Model/MediaCache.lean mirrors statement by statement: any edit shows
+		bodyHash := func(lean, file, recv, fn string) {
+			fd := FuncDecl(Parse(file), recv, fn)
+			if fd == nil {
+				e.Unknown(recv + "." + fn)
+			}
+			e.P("/-- %s: %s.%s — FNV-1a of the body as printed by go/printer (no comments) -/", file, recv, fn)
+			e.P("def %s : Nat := %d", lean, BodyHash(fd))
+		}
+		bodyHash("hashH264PayloadType", "media/cache/h264cache.go", "H264Cache", "getPalyloadType")
+		bodyHash("hashH264NalType", "media/cache/h264cache.go", "H264Cache", "nalType")
+		bodyHash("hashHevcPayloadType", "media/cache/hevccache.go", "HevcCache", "getPalyloadType")
+		bodyHash("hashHevcNalType", "media/cache/hevccache.go", "HevcCache", "nalType")
 		conds("condsH264CachePack", "media/cache/h264cache.go", "H264Cache", "CachePack")
 		conds("condsHevcCachePack", "media/cache/hevccache.go", "HevcCache", "CachePack")
 		conds("condsConsSend", "media/consumption.go", "consumption", "send")
